@@ -554,7 +554,8 @@ def search(ctx):
   for i in range(ctx.n(60, 4000)):
     if time.time() - t0 > budget or len(ctx.violations) > 10:
       break
-    hist = c05lib.directed_history(random.Random(ctx.rng.randrange(1 << 30)))
+    hr = random.Random(ctx.rng.randrange(1 << 30))
+    hist = c05lib.blankref_history(hr) if hr.random() < 0.3 else c05lib.directed_history(hr)
     e, _ = G.new_doc()
     done = []
     for b in hist:
